@@ -232,6 +232,56 @@ example :
   · show ((fun c : Char => c.isAlphanum) '.' || '.' == '_') = false; decide
   · show isRotoDigit '.' = false; decide
 
+/-- the suffix tables of the model are the ones GENERATED from `simple_literal`
+    (integer suffixes, float suffixes, float suffixes on an integer token), and
+    every `_` is stripped from the digits -/
+theorem suffix_tables :
+    Gen.Precedence.intSuffixes.map String.toList = Literal.intSuffixes ∧
+    Gen.Precedence.floatSuffixes.map String.toList = Literal.floatSuffixes ∧
+    Gen.Precedence.intTokenFloatSuffixes = ["f32", "f64"] ∧
+    Gen.Precedence.underscoreStripAll = true := ⟨rfl, rfl, rfl, rfl⟩
+
+example : Gen.Precedence.intSuffixes.length = 9 := rfl
+
+/-- T3a-float (`float_token_split_partial`). Where a float literal ends. For
+    EVERY two digit sequences with EVERY placement of underscores, EVERY float
+    suffix (`f32`, `f64`, none) and EVERY following text at which the documented
+    token ends (`FloatBoundary`: not XID_Continue / `_`; without suffix also not
+    a digit or an exponent letter; a `.` MAY follow), `Lexer::number` splits
+    `D.F suffix rest` into the Float token `D.F`, the suffix and `rest` — so in
+    `2.0f64.pow(2.0)` the literal is `2.0f64` and `.pow(2.0)` is a postfix form
+    of it; and an integer token with a float suffix (`2f64.pow(2.0)`) splits
+    the same way.
+    PARTIAL. Full statement: every float spelling of the documented grammar
+    (also `D.`, `DeX`, `D.FeX`, signs and underscores in the exponent) is ONE
+    token and decodes to the correctly rounded binary64 value of its decimal
+    reading. Missing here: the exponent shapes and `D.`, and the value
+    (`parseDecimal` / `f64Bits` are exercised by the correspondence run against
+    Rust's `f64::from_str` and the JIT only). -/
+theorem float_token_split_partial (xs xc : Char → Bool) (d f : Fin 10 × Nat) (ds fs : List (Fin 10 × Nat))
+    (suffix rest : List Char) (hx : ∀ c ∈ suffix, xc c = true)
+    (hxs : ∀ k : Fin 10, xs (digitChar k.val) = false) :
+    (suffix ∈ Literal.floatSuffixes → FloatBoundary xc suffix rest →
+      lexNumber xs xc (spellDigits (d :: ds) ++ ('.' :: (spellDigits (f :: fs) ++ (suffix ++ rest)))) =
+        some { isFloat := true, num := spellDigits (d :: ds) ++ '.' :: spellDigits (f :: fs),
+               suffix := suffix, rest := rest }) ∧
+    ((suffix = "f32".toList ∨ suffix = "f64".toList) → Stops (fun c => xc c || c == '_') rest →
+      lexNumber xs xc (spellDigits (d :: ds) ++ (suffix ++ rest)) =
+        some { isFloat := false, num := spellDigits (d :: ds), suffix := suffix, rest := rest }) := by
+  refine ⟨fun hs hb => lexNumber_float_point xs xc d f ds fs suffix rest hs hx hxs hb, fun hs hb => ?_⟩
+  refine lexNumber_digits xs xc d ds suffix rest (Or.inr ?_) hx ⟨hb, fun h => ?_⟩
+  · rcases hs with h | h <;> subst h <;> exact ⟨'f', _, rfl, Or.inr (Or.inr rfl)⟩
+  · rcases hs with h' | h' <;> subst h' <;> simp at h
+
+/-- non-vacuity: the seeded witness `2.0f64.pow(2.0)`, `2f64.pow(2.0)`, `2.5.abs()` -/
+example :
+    lexNumber (fun c => c.isAlpha) (fun c => c.isAlphanum) "2.0f64.pow(2.0)".toList =
+      some { isFloat := true, num := "2.0".toList, suffix := "f64".toList, rest := ".pow(2.0)".toList } ∧
+    lexNumber (fun c => c.isAlpha) (fun c => c.isAlphanum) "2f64.pow(2.0)".toList =
+      some { isFloat := false, num := "2".toList, suffix := "f64".toList, rest := ".pow(2.0)".toList } ∧
+    lexNumber (fun c => c.isAlpha) (fun c => c.isAlphanum) "2.5.abs()".toList =
+      some { isFloat := true, num := "2.5".toList, suffix := [], rest := ".abs()".toList } := by decide
+
 /-- T3b. Hexadecimal literals, AS numbers, dotted quads and `ip / len`: the
     decoders on concrete spellings of every shape (upper/lower case digits,
     leading zeros, boundary values, rejected forms). -/
